@@ -25,6 +25,7 @@ ASSUMPTIONS = ['data values from the seeded data alphabet (inside function domai
                'r_values are not compared (the statement does not define them)',
                'pairs mixing a bare ensemble name with replica-named chains of the same ensemble are skipped and counted']
 EXHAUSTIVE = True
+REPEAT = 2      # every case is evaluated twice in the same process: the second verdict must equal the first (call-history oracle)
 CHUNK = 4
 
 OPS = {'+': operator.add, '-': operator.sub, '*': operator.mul, '/': operator.truediv, '**': operator.pow}
